@@ -256,8 +256,19 @@ if PB._upper[i] != (1 << i) - 1 or PB._lower[i] != -(1 << (i-1)): reproduced(f"_
   return res.r
 
 
+def item_selftest(it):
+  """differential validation of the engine itself (not of pymtl3): symbolic operands pinned to concrete vectors"""
+  from symx import selftest
+  res = Result(f"symx-selftest/seed={it['n']}")
+  n, bad = selftest.run(it['nvals'], seed=it['n'])
+  res['replays'] = n
+  res['states'] = 1; res['transitions'] = 1
+  if bad: res['inconclusive'].append(f"symx self-test mismatches (engine bug): {bad[:3]}")
+  return res.r
+
+
 def dispatch(it):
-  return {'bin': item_bin, 'misc': item_misc, 'tables': item_tables}[it['kind']](it)
+  return {'bin': item_bin, 'misc': item_misc, 'tables': item_tables, 'selftest': item_selftest}[it['kind']](it)
 
 
 MISC = ['ctor', 'ctor_trunc', 'ctor_cls', 'ctor_cls_trunc', 'ctor_bits', 'imatmul_int', 'imatmul_bits', 'ilshift_int',
@@ -283,6 +294,8 @@ def main():
       items.append(dict(kind='misc', name=what, n=n))
   # biggest first (better packing)
   items.sort(key=lambda it: -it['n'])
+  items = [dict(kind='selftest', name='selftest', n=sd, nvals=12 if tier == 'quick' else 24)
+           for sd in range(4 if tier == 'quick' else 16)] + items
   for it, r in pmap(dispatch, items, item_timeout=300 if tier == 'quick' else 900):
     chk.absorb(it, r)
   chk.bounds = dict(widths=widths, div_mod_widths=divw, mixed_width_pairs=MIXED, int_operand_bits='n+3 signed',
